@@ -54,6 +54,8 @@ M = [
  ("M49-b256plan-written-le1", "src/encodation/planner/base256.rs", "let cost = if written == 0 {", "let cost = if written <= 1 {", {"C10": "COST-WRITE", "C18": "COST-WRITE"}),
  ("M50-b256plan-no-booking", "src/encodation/planner/base256.rs", "            // for length byte\n            ctx.write(1);\n            1", "            // for length byte\n            1", {"C10": "COST-WRITE", "C18": "COST-WRITE"}),
  ("M51-rhc-no-progress", "src/encodation/planner/shortest_path.rs", "        if uncomparable {\n            start += 1;", "        if uncomparable {\n            start += removed;", {"C11": "T-LOOPS-ENC"}),
+ ("M52-edifact-dec-bit", "src/decodation/mod.rs", "        ch | 0b0100_0000\n", "        ch | 0b1100_0000\n", {"C04": "TAB-DEC", "C01": "TAB-CODEC"}),
+ ("M53-edifact-dec-shift", "src/decodation/mod.rs", "let val = ((chunk >> 12) & 0b11_1111) as u8;", "let val = ((chunk >> 11) & 0b11_1111) as u8;", {"C04": "TAB-DEC", "C01": "TAB-CODEC"}),
  ("M24-switch-insert", "src/encodation/planner/generic.rs", "                    switches.push((rest_len, EncodationType::$enum));", "                    switches.insert(0, (rest_len, EncodationType::$enum));", {"C18": "PLAN-MONO"}),
 ]
 def main():
